@@ -35,9 +35,9 @@ int main(int argc, char** argv) {
     // quaternion mode, q = identity, u = (1,0,..), NDot applied to W = (0,1,..)
     for (int k = -2; k < nsys; ++k) {
         const bool reg = k < 0;
-        RandSystem rs; rs.optRng = &ropt; int nb = r.I(1, maxb); int shape = r.I(0, 2);
+        RandSystem rs; rs.optRng = &ropt; rs.ntypes = NMOBTYPES_ALL; int nb = r.I(1, maxb); int shape = r.I(0, 2);
         // every other system is built from a single mobilizer type so that a failure names its type
-        int only = (k >= 0 && k % 2 == 0) ? (k / 2) % NMOBTYPES : -1;
+        int only = (k >= 0 && k % 2 == 0) ? (k / 2) % NMOBTYPES_ALL : -1;
         if (reg) { only = k == -2 ? 13 : 14; nb = 1; }
         try { if (reg) rs.build(r, nb, 0, only, 0, 0); else if (k % 20 == 19) buildLone(rs, r, nb); else rs.build(r, nb, shape, only); } catch (const std::exception& e) { continue; }
         State& s = rs.state; const SimbodyMatterSubsystem& m = rs.matter;
